@@ -217,7 +217,7 @@ def step (st : St) (toks : List String) (impl : String) : St × LineResult :=
     match parseRole role, d.toNat?, fb.toNat?, g.toNat? with
     | some role, some d, some fb, some g =>
       let cfg : Cfg := { delay := d, fbDelay := fb, grace := g, failbackEnabled := e == "1", original := role }
-      let st : St := { mon := { delay := d, grace := g, failbackEnabled := e == "1" } }
+      let st : St := { mon := { delay := d, fbDelay := fb, grace := g, failbackEnabled := e == "1" } }
       finish st (Failover.init cfg) "" .new impl
     | _, _, _, _ => (st, { modelObs := "badop" })
   | _ =>
